@@ -142,29 +142,72 @@ package hook
 // the environment inherited from the operator process, as last read by os.Environ
 //@ ghost lastEnviron []string
 
-//@ trusted func (*Hook).prepareBindingContextJsonFile
-//@   modifies fsExists, ctxFileContent
-//@   ghostset ctxFileContent := context
-//@   ensures result1 != nil ==> result0 == "" && forall(p, string, fsExists[p] == old(fsExists[p]))
-//@   ensures result1 == nil ==> result0 != "" && !old(fsExists[result0]) && fsExists[result0] && forall(p, string, p != result0 ==> fsExists[p] == old(fsExists[p]))
-//@ trusted func (*Hook).prepareMetricsFile
-//@   modifies fsExists
-//@   ensures result1 != nil ==> result0 == "" && forall(p, string, fsExists[p] == old(fsExists[p]))
-//@   ensures result1 == nil ==> result0 != "" && !old(fsExists[result0]) && fsExists[result0] && forall(p, string, p != result0 ==> fsExists[p] == old(fsExists[p]))
-//@ trusted func (*Hook).prepareAdmissionResponseFile
-//@   modifies fsExists
-//@   ensures result1 != nil ==> result0 == "" && forall(p, string, fsExists[p] == old(fsExists[p]))
-//@   ensures result1 == nil ==> result0 != "" && !old(fsExists[result0]) && fsExists[result0] && forall(p, string, p != result0 ==> fsExists[p] == old(fsExists[p]))
-//@ trusted func (*Hook).prepareConversionResponseFile
-//@   modifies fsExists
-//@   ensures result1 != nil ==> result0 == "" && forall(p, string, fsExists[p] == old(fsExists[p]))
-//@   ensures result1 == nil ==> result0 != "" && !old(fsExists[result0]) && fsExists[result0] && forall(p, string, p != result0 ==> fsExists[p] == old(fsExists[p]))
-//@ trusted func (*Hook).prepareObjectPatchFile
-//@   modifies fsExists
-//@   ensures result1 != nil ==> result0 == "" && forall(p, string, fsExists[p] == old(fsExists[p]))
-//@   ensures result1 == nil ==> result0 != "" && !old(fsExists[result0]) && fsExists[result0] && forall(p, string, p != result0 ==> fsExists[p] == old(fsExists[p]))
+// The five preparation steps are verified (they were assumed until batch 12): a step that reports
+// an error has created nothing and returns no name; a successful step has written exactly one file
+// that did not exist before - the file whose name it returns - and the binding-context file is
+// written from the JSON rendering of exactly the list handed in. Assumed below them: os.WriteFile
+// (an error leaves no file; success creates the named file and no other), the JSON renderer (ghost
+// log of what was rendered) and, per call site, that a name carrying a fresh uuid is non-empty and
+// does not exist yet.
+//@ ghost lastJsonOut []byte
+//@ ghost lastWritten []byte
+//@ func (*Hook).prepareBindingContextJsonFile
+//@   prop C12
+//@   requires h != nil
+//@   modifies fsExists, ctxFileContent, lastJsonOut, lastWritten
+//@   ensures [error-leaves-nothing] result1 != nil ==> result0 == "" && forall(p, string, fsExists[p] == old(fsExists[p]))
+//@   ensures [one-new-file] result1 == nil ==> result0 != "" && !old(fsExists[result0]) && fsExists[result0] && forall(p, string, p != result0 ==> fsExists[p] == old(fsExists[p]))
+//@   ensures [content-is-the-list-handed-in] result1 == nil ==> ctxFileContent == context && lastWritten == lastJsonOut
+//@   callsite path/filepath.Join
+//@     ensures result != "" && !fsExists[result]
+//@ func (*Hook).prepareMetricsFile
+//@   prop C12
+//@   requires h != nil
+//@   modifies fsExists, lastWritten
+//@   ensures [error-leaves-nothing] result1 != nil ==> result0 == "" && forall(p, string, fsExists[p] == old(fsExists[p]))
+//@   ensures [one-new-file] result1 == nil ==> result0 != "" && !old(fsExists[result0]) && fsExists[result0] && forall(p, string, p != result0 ==> fsExists[p] == old(fsExists[p]))
+//@   ensures [empty-file] result1 == nil ==> len(lastWritten) == 0
+//@   callsite path/filepath.Join
+//@     ensures result != "" && !fsExists[result]
+//@ func (*Hook).prepareAdmissionResponseFile
+//@   prop C12
+//@   requires h != nil
+//@   modifies fsExists, lastWritten
+//@   ensures [error-leaves-nothing] result1 != nil ==> result0 == "" && forall(p, string, fsExists[p] == old(fsExists[p]))
+//@   ensures [one-new-file] result1 == nil ==> result0 != "" && !old(fsExists[result0]) && fsExists[result0] && forall(p, string, p != result0 ==> fsExists[p] == old(fsExists[p]))
+//@   ensures [empty-file] result1 == nil ==> len(lastWritten) == 0
+//@   callsite path/filepath.Join
+//@     ensures result != "" && !fsExists[result]
+//@ func (*Hook).prepareConversionResponseFile
+//@   prop C12
+//@   requires h != nil
+//@   modifies fsExists, lastWritten
+//@   ensures [error-leaves-nothing] result1 != nil ==> result0 == "" && forall(p, string, fsExists[p] == old(fsExists[p]))
+//@   ensures [one-new-file] result1 == nil ==> result0 != "" && !old(fsExists[result0]) && fsExists[result0] && forall(p, string, p != result0 ==> fsExists[p] == old(fsExists[p]))
+//@   ensures [empty-file] result1 == nil ==> len(lastWritten) == 0
+//@   callsite path/filepath.Join
+//@     ensures result != "" && !fsExists[result]
+//@ func (*Hook).prepareObjectPatchFile
+//@   prop C12
+//@   requires h != nil
+//@   modifies fsExists, lastWritten
+//@   ensures [error-leaves-nothing] result1 != nil ==> result0 == "" && forall(p, string, fsExists[p] == old(fsExists[p]))
+//@   ensures [one-new-file] result1 == nil ==> result0 != "" && !old(fsExists[result0]) && fsExists[result0] && forall(p, string, p != result0 ==> fsExists[p] == old(fsExists[p]))
+//@   ensures [empty-file] result1 == nil ==> len(lastWritten) == 0
+//@   callsite path/filepath.Join
+//@     ensures result != "" && !fsExists[result]
 
+//@ package github.com/flant/shell-operator/pkg/hook/binding_context
+//@ trusted func (BindingContextList).Json
+//@   modifies hook.ctxFileContent, hook.lastJsonOut
+//@   ghostset hook.ctxFileContent := b
+//@   ghostset hook.lastJsonOut := result0
 //@ package os
+//@ trusted func WriteFile
+//@   modifies hook.fsExists, hook.lastWritten
+//@   ghostset hook.lastWritten := data
+//@   ensures result != nil ==> forall(p, string, hook.fsExists[p] == old(hook.fsExists[p]))
+//@   ensures result == nil ==> hook.fsExists[name] && forall(p, string, p != name ==> hook.fsExists[p] == old(hook.fsExists[p]))
 //@ trusted func Remove
 //@   modifies hook.fsExists
 //@   ensures !hook.fsExists[name] && forall(p, string, p != name ==> hook.fsExists[p] == old(hook.fsExists[p]))
@@ -225,7 +268,7 @@ package hook
 //@   requires [rate-limit-token] lastWaitHook == h && lastWaitErr == nil && h != nil
 //@   requires h.HookController != nil && h.Config != nil && (h.Config.Version == "v0" || h.Config.Version == "v1") && nProcess >= 0 && !fsExists[""]
 //@   modifies bctx.lastConvIn, bctx.lastConvVersion, bctx.lastConvOut, controller.lastRefreshIn, controller.lastRefreshOut, controller.snapCount, controller.snapOf
-//@   modifies nRun, lastRunHook, ranContexts, lastWaitHook, lastHookResult, lastHookErr, fsExists, ctxFileContent, nProcess, lastExitErr, nOutputsRead, lastEnviron
+//@   modifies nRun, lastRunHook, ranContexts, lastWaitHook, lastHookResult, lastHookErr, fsExists, ctxFileContent, lastJsonOut, lastWritten, nProcess, lastExitErr, nOutputsRead, lastEnviron
 //@   ghostset nRun := nRun + 1
 //@   ghostset lastRunHook := h
 //@   ghostset ranContexts := context
